@@ -12,6 +12,7 @@ use rt::*;
 use std::collections::BTreeMap;
 use std::fmt::Write as _;
 use std::panic::{catch_unwind, AssertUnwindSafe};
+use std::sync::atomic::Ordering::SeqCst;
 
 #[global_allocator]
 static A: CountingAlloc = CountingAlloc;
@@ -973,7 +974,18 @@ fn check_contents(cx: &mut Ctx, s: usize, prop: &str, what: &str) {
     }
 }
 
+/// `bomb`: the class of a key whose key object's destructor panics if DrainFilter's own Drop is
+/// what drops it; the Drop impl must then still remove every remaining matching element (its
+/// ConsumeAllOnDrop guard) before the panic goes on - caught here, so that the call compares with
+/// the model's early-dropped drain_filter like any other.
 fn op_drain_filter(cx: &mut Ctx, s: usize, take: Vec<u64>, delta: u64, j: Option<u64>, forget: bool, fuse: Option<u64>) -> Out {
+    op_drain_filter_bomb(cx, s, take, delta, j, forget, fuse, None)
+}
+fn op_drain_filter_bomb(cx: &mut Ctx, s: usize, take: Vec<u64>, delta: u64, j: Option<u64>, forget: bool, fuse: Option<u64>, bomb: Option<u64>) -> Out {
+    let bomb_kid: Option<u64> = if forget || fuse.is_some() { None } else { bomb.and_then(|b| cx.refs[s].as_ref().and_then(|r| r.get(&b).map(|e| e.0))) };
+    if bomb_kid.is_some() {
+        cx.bump("drainfilter_bomb");
+    }
     let spec = OpSpec { toks: format!("drainfilter {} {} {} {} {}", s, delta, ostr(&j), forget as u8, nlist(&take)), kind: "drainfilter", slots: vec![s], pslot: Some(s), fuse, key_adding: false, readonly: false, key: None };
     let takeset: std::collections::BTreeSet<u64> = take.iter().cloned().collect();
     let ts = takeset.clone();
@@ -1005,7 +1017,19 @@ fn op_drain_filter(cx: &mut Ctx, s: usize, take: Vec<u64>, delta: u64, j: Option
         if forget {
             std::mem::forget(it);
         } else {
-            drop(it);
+            match bomb_kid {
+                Some(b) if !got.iter().any(|g| g.1 == b) => {
+                    BOMB.store(b, SeqCst);
+                    let r = catch_unwind(AssertUnwindSafe(move || drop(it)));
+                    BOMB.store(0, SeqCst);
+                    if let Err(p) = r {
+                        if !p.is::<FusePanic>() {
+                            std::panic::resume_unwind(p);
+                        }
+                    }
+                }
+                _ => drop(it),
+            }
         }
         Out::L(got)
     });
@@ -1168,6 +1192,17 @@ fn op_into_iter(cx: &mut Ctx, s: usize, j: u64) -> Out {
     out
 }
 
+/// an iterator with a chosen lower size hint
+struct It(std::vec::IntoIter<(K, V)>, usize);
+impl Iterator for It {
+    type Item = (K, V);
+    fn next(&mut self) -> Option<(K, V)> {
+        self.0.next()
+    }
+    fn size_hint(&self) -> (usize, Option<usize>) {
+        (self.1, None)
+    }
+}
 fn op_extend(cx: &mut Ctx, s: usize, keys: Vec<u64>, hint: usize) -> Out {
     let items: Vec<(u64, u64, u64)> = keys.iter().map(|k| (*k, cx.kid(), cx.val())).collect();
     let mut toks = format!("extend {} {} {}", s, hint, items.len());
@@ -1175,16 +1210,6 @@ fn op_extend(cx: &mut Ctx, s: usize, keys: Vec<u64>, hint: usize) -> Out {
         write!(toks, " {} {} {}", k, kid, v).unwrap();
     }
     let spec = OpSpec { toks, kind: "extend", slots: vec![s], pslot: None, fuse: None, key_adding: false, readonly: false, key: None };
-    struct It(std::vec::IntoIter<(K, V)>, usize);
-    impl Iterator for It {
-        type Item = (K, V);
-        fn next(&mut self) -> Option<(K, V)> {
-            self.0.next()
-        }
-        fn size_hint(&self) -> (usize, Option<usize>) {
-            (self.1, None)
-        }
-    }
     let objs: Vec<(K, V)> = items.iter().map(|(k, kid, v)| (K::new(*k, *kid), V::new(*v))).collect();
     let out = run_op(cx, spec, move |cx| {
         cx.maps[s].as_mut().unwrap().extend(It(objs.into_iter(), hint));
@@ -1229,12 +1254,17 @@ fn op_from_iter(cx: &mut Ctx, s: usize, hb: HB, keys: Vec<u64>, hint: usize) {
     }
     cx.poisoned[s] = false;
     run_op(cx, spec, move |cx| {
-        // FromIterator needs S: Default; build it the way from_iter does
-        let mut m = Map::with_capacity_and_hasher(hint, hb);
-        for (k, v) in objs {
-            m.insert(k, v);
+        // FromIterator needs S: Default: the real from_iter when the hasher is the default one,
+        // otherwise what from_iter does, by hand
+        if hb == HB::default() {
+            cx.maps[s] = Some(It(objs.into_iter(), hint).collect::<Map>());
+        } else {
+            let mut m = Map::with_capacity_and_hasher(hint, hb);
+            for (k, v) in objs {
+                m.insert(k, v);
+            }
+            cx.maps[s] = Some(m);
         }
-        cx.maps[s] = Some(m);
         Out::U
     });
     let mut rf = Ref::new();
